@@ -1072,6 +1072,33 @@ func freshDepth(info *types.Info, fi *FuncInfo, e ast.Expr, depth int) (bool, st
 		return true
 	})
 	if any && allMake {
+		// a fresh table of slices (or maps) is a snapshot only if what is put into it is fresh too:
+		// m[k] = v with v taken as it is from the table being copied shares v's backing array
+		if m, isMap := o.Type().Underlying().(*types.Map); isMap {
+			switch m.Elem().Underlying().(type) {
+			case *types.Slice, *types.Map:
+				shared := ""
+				ast.Inspect(fi.Decl.Body, func(x ast.Node) bool {
+					as, ok := x.(*ast.AssignStmt)
+					if !ok || len(as.Lhs) != 1 || len(as.Rhs) != 1 {
+						return true
+					}
+					ix, isIx := unparen(as.Lhs[0]).(*ast.IndexExpr)
+					if !isIx || objOf(info, ix.X) != o {
+						return true
+					}
+					if _, isCall := unparen(as.Rhs[0]).(*ast.CallExpr); !isCall {
+						if _, isLit := unparen(as.Rhs[0]).(*ast.CompositeLit); !isLit {
+							shared = exprStr(as.Lhs[0]) + " = " + exprStr(as.Rhs[0])
+						}
+					}
+					return true
+				})
+				if shared != "" {
+					return false, "the table " + o.Name() + " is new but it is filled with the values of the table it copies (" + shared + "): the per-key " + m.Elem().String() + " values are still the collection's"
+				}
+			}
+		}
 		return true, "local " + o.Name() + " built with make"
 	}
 	if !any {
